@@ -157,6 +157,39 @@ var w *world
 
 func valOf(t, i int) int { return (t+1)*10 + i + 1 }
 
+// valueMode: how the abstract values are represented in the map. "int": themselves; "err": a type implementing
+// error (what d2 stores for a failed lookup); "nil": the first value of thread 0 is the untyped nil (a value like any
+// other for a map), the others are themselves.
+var valueMode = "int"
+
+type valErr int
+
+func (e valErr) Error() string { return fmt.Sprintf("value %d", int(e)) }
+
+func enc(val int) interface{} {
+	switch valueMode {
+	case "err":
+		return valErr(val)
+	case "nil":
+		if val == valOf(0, 0) {
+			return nil
+		}
+	}
+	return val
+}
+
+func dec(r interface{}) (int, bool) {
+	switch x := r.(type) {
+	case int:
+		return x, valueMode != "err"
+	case valErr:
+		return int(x), valueMode == "err"
+	case nil:
+		return valOf(0, 0), valueMode == "nil"
+	}
+	return 0, false
+}
+
 func fireCall() {
 	t := sched.CurID()
 	if t >= 0 && w != nil && w.needCall[t] != nil {
@@ -193,9 +226,9 @@ func threadBody(t int, prog Prog) func() {
 					sched.Point("f")
 					fireCall()
 					ran = true
-					return val
+					return enc(val)
 				})
-				iv, ok := r.(int)
+				iv, ok := dec(r)
 				if !ok {
 					setFail("T%d %s returned a non-value %T (%+v)", t, op, r, r)
 				}
@@ -203,7 +236,7 @@ func threadBody(t int, prog Prog) func() {
 			case kLoad:
 				r, ok := w.m.Load(op.Key)
 				if ok {
-					iv, isInt := r.(int)
+					iv, isInt := dec(r)
 					if !isInt {
 						setFail("T%d %s returned an in-flight placeholder %T (%+v)", t, op, r, r)
 					}
@@ -213,7 +246,7 @@ func threadBody(t int, prog Prog) func() {
 				}
 				rf = ok
 			case kStore:
-				w.m.Store(op.Key, val)
+				w.m.Store(op.Key, enc(val))
 			}
 			if w.needCall[t] != nil {
 				// the operation returned without any shared action: invocation = return
@@ -297,7 +330,7 @@ func mkHarness(progs []Prog) sched.Harness {
 				r, ok := (*vs.Map)(w.m).Peek(k)
 				got := 0
 				if ok {
-					iv, isInt := r.(int)
+					iv, isInt := dec(r)
 					if !isInt {
 						return fmt.Errorf("after quiescence key k%d still holds a placeholder %+v", k, r)
 					}
@@ -411,6 +444,7 @@ type replayPayload struct {
 	Gen      string `json:"gen"`
 	Progs    []Prog `json:"progs"`
 	Schedule []int  `json:"schedule"`
+	Mode     string `json:"mode,omitempty"`
 }
 
 type family struct {
@@ -418,6 +452,23 @@ type family struct {
 	tuples [][]Prog
 	bound  int
 	prune  bool
+	mode   string
+}
+
+// orderedTuples: every ordered n-tuple (the "nil" representation singles out thread 0, so thread symmetry is gone).
+func orderedTuples(progs []Prog, n int) (out [][]Prog) {
+	var rec func(cur []Prog)
+	rec = func(cur []Prog) {
+		if len(cur) == n {
+			out = append(out, append([]Prog{}, cur...))
+			return
+		}
+		for _, p := range progs {
+			rec(append(cur, p))
+		}
+	}
+	rec(nil)
+	return out
 }
 
 func main() {
@@ -428,6 +479,9 @@ func main() {
 	if a.Replay != "" {
 		var rp replayPayload
 		a.LoadReplay(&rp)
+		if rp.Mode != "" {
+			valueMode = rp.Mode
+		}
 		h := mkHarness(rp.Progs)
 		f1, tr1 := sched.Replay(h, rp.Schedule)
 		f2, tr2 := sched.Replay(h, rp.Schedule)
@@ -451,20 +505,30 @@ func main() {
 	var fams []family
 	t21, _ := canonicalTuples(two, 2)
 	t31, _ := canonicalTuples(one, 3)
-	fams = append(fams, family{"2x2-all-unbounded", t21, -1, true})
-	fams = append(fams, family{"3x1-all-unbounded", t31, -1, true})
+	fams = append(fams, family{"2x2-all-unbounded", t21, -1, true, "int"})
+	fams = append(fams, family{"3x1-all-unbounded", t31, -1, true, "int"})
 	if a.Thorough() {
 		t32, _ := canonicalTuples(two, 3)
-		fams = append(fams, family{"3x2-all-unbounded", t32, -1, true})
+		fams = append(fams, family{"3x2-all-unbounded", t32, -1, true, "int"})
 	} else {
 		t32s, _ := canonicalTuples(twoSame, 3)
-		fams = append(fams, family{"3x2-samekey-pb2", t32s, 2, true})
+		fams = append(fams, family{"3x2-samekey-pb2", t32s, 2, true, "int"})
+	}
+	// the values as error objects (what d2 stores for a failed lookup) and with an untyped nil among them
+	fams = append(fams, family{"2x2-all-unbounded-values=err", t21, -1, true, "err"})
+	fams = append(fams, family{"3x1-all-unbounded-values=err", t31, -1, true, "err"})
+	fams = append(fams, family{"2x2-ordered-unbounded-values=nil", orderedTuples(two, 2), -1, true, "nil"})
+	fams = append(fams, family{"3x1-ordered-unbounded-values=nil", orderedTuples(one, 3), -1, true, "nil"})
+	if a.Thorough() {
+		fams = append(fams, family{"3x2-samekey-unbounded-values=err", func() [][]Prog { t, _ := canonicalTuples(twoSame, 3); return t }(), -1, true, "err"})
+		fams = append(fams, family{"3x2-samekey-ordered-pb2-values=nil", orderedTuples(twoSame, 3), 2, true, "nil"})
 	}
 
 	item := 0
 	histories := map[string]bool{}
 	for _, fam := range fams {
 		s := rep.S(fam.name)
+		valueMode = fam.mode
 		s.Bounds = fmt.Sprintf("tuples=%d preemption_bound=%d prune=%v", len(fam.tuples), fam.bound, fam.prune)
 		for _, tup := range fam.tuples {
 			item++
@@ -510,9 +574,13 @@ func main() {
 				if i := strings.Index(msg, "\n"); i > 0 {
 					msg = msg[:i]
 				}
-				rep.Fail(fmt.Sprintf("%s lazymap %s programs=[%s]", a.Gen, f.Kind, tupleKey(tup)),
+				modeTag := ""
+				if fam.mode != "int" {
+					modeTag = " values=" + fam.mode
+				}
+				rep.Fail(fmt.Sprintf("%s lazymap %s programs=[%s]%s", a.Gen, f.Kind, tupleKey(tup), modeTag),
 					fmt.Sprintf("%s\nschedule: %s", f.Msg, sched.FormatTrace(f.Trace)),
-					replayPayload{a.Gen, tup, f.Schedule})
+					replayPayload{a.Gen, tup, f.Schedule, fam.mode})
 			}
 		}
 	}
